@@ -76,6 +76,10 @@ class WorkerCtx:
         self.outdir = outdir
         self.scratch = outdir / f"w{shard}"
         self.scratch.mkdir(parents=True, exist_ok=True)
+        # keep experimaestro away from the user's home and settings
+        (self.scratch / "home").mkdir(exist_ok=True)
+        os.environ["HOME"] = str(self.scratch / "home")
+        os.environ["XPM_WORKDIR"] = str(self.scratch / "xpmlocal")
         self._out = open(outdir / f"shard{shard}.jsonl", "w")
         self.counters = {}
         self.hashes = set()
@@ -126,6 +130,11 @@ class WorkerCtx:
             )
         self.count("violations_raw")
         self.count("viol:" + mechanism)
+
+    def crosscheck(self, key, value):
+        """Values that must agree between all worker processes (different PYTHONHASHSEEDs)."""
+        self._emit({"t": "cross", "k": key, "v": value, "shard": self.shard, "hashseed": os.environ.get("PYTHONHASHSEED")})
+        self.count("crosschecks")
 
     def inconclusive(self, reason):
         self._emit({"t": "inconclusive", "reason": reason})
@@ -248,6 +257,7 @@ def main_check(modname, tier, seed, replay=None):
     samples = []
     violations = []
     inconclusive = []
+    cross = {}
     ended = 0
     for i in range(nshards):
         f = outdir / f"shard{i}.jsonl"
@@ -262,6 +272,8 @@ def main_check(modname, tier, seed, replay=None):
                 samples.append(r["v"])
             elif r["t"] == "violation":
                 violations.append(r)
+            elif r["t"] == "cross":
+                cross.setdefault(r["k"], []).append((r["shard"], r["hashseed"], r["v"]))
             elif r["t"] == "inconclusive":
                 inconclusive.append(r["reason"])
             elif r["t"] == "end":
@@ -279,6 +291,24 @@ def main_check(modname, tier, seed, replay=None):
         inconclusive.append(f"shard {i} ended with {rc}: {tail}")
     if ended < nshards and not failed:
         inconclusive.append(f"only {ended}/{nshards} shards reported")
+
+    ncross = 0
+    for k, vals in cross.items():
+        if len(vals) > 1:
+            ncross += 1
+            if len({canon(v[2]) for v in vals}) > 1:
+                violations.append(
+                    {
+                        "t": "violation",
+                        "mechanism": "cross-process-disagreement",
+                        "message": f"processes disagree on {k}: {vals[:4]}",
+                        "witness": {"key": k, "values": vals[:6]},
+                        "replay": {"key": k, "values": vals[:6]},
+                        "seed": seed,
+                        "shard": -1,
+                    }
+                )
+    counters["cross_keys_compared"] = ncross
 
     # ---- classify violations against known findings
     known = load_known()
@@ -340,6 +370,7 @@ def main_check(modname, tier, seed, replay=None):
         print(f"KNOWN-FINDING: property={prop} {f['what']} [mechanism={mech}, seen {counters.get('viol:' + mech, 0)}x]")
     rc = 0
     if fresh:
+        print("# violations by mechanism:", {k[5:]: v for k, v in sorted(counters.items()) if k.startswith("viol:")})
         rdir = VERIF / "replays" / prop
         rdir.mkdir(parents=True, exist_ok=True)
         seen = set()
